@@ -1,7 +1,7 @@
 import Driver.Common
 import Altrios.Powertrain
 import Altrios.Consist
-namespace Driver.PTOps
+namespace Driver.OpsPT
 open Altrios Altrios.Proto Altrios.PT Altrios.CS Altrios.Interp Driver
 
 def kF : Consts Float := { tol := 1e-3, eps := 1e-8, c005 := 0.05, ten := 10.0 }
@@ -186,4 +186,4 @@ def handlers : List (String × Handler) := [
     let c ← consist
     pure ("ok " ++ sp [fF (getEnergyFuel c), fF (getNetEnergyRes c)]))
 ]
-end Driver.PTOps
+end Driver.OpsPT
